@@ -212,6 +212,38 @@ def directed_kw_programs(rng):
     return out
 
 
+def directed_multipos_programs(rng):
+    """handlers with TWO value-dependent positions in one rank, in the shapes that decide between the generated
+    strategies: the same Literal at both positions of every handler (diagonal), a shared Literal at one position and
+    distinct ones at the other, and crossed pairs -- with 3, 4 and 5 handlers (below / at / above the size where a
+    lookup table is considered), with and without a static method to fall through to.  Every pair of pool values is
+    called, so each handler is reached with one position matching and the other not."""
+    out = []
+    for pool in ([1, 2, 3, 7, 8], ["a", "ab", "b", "abc", "xb"]):
+        cls = INT if isinstance(pool[0], int) else STR
+        other = "zz" if cls == STR else 99
+        lit = lambda v: [8, [0, cls], enc_val(v)]
+        for k in (3, 4, 5):
+            for shape in ("diag", "shared_first", "shared_second", "crossed"):
+                for fallback in (False, True):
+                    spec = random_spec(rng, n_user=1, kinds=("plain",))
+                    if shape == "diag":
+                        pairs = [(pool[i], pool[i]) for i in range(k)]
+                    elif shape == "shared_first":
+                        pairs = [(pool[0], pool[i]) for i in range(k)]
+                    elif shape == "shared_second":
+                        pairs = [(pool[i], pool[0]) for i in range(k)]
+                    else:
+                        pairs = [(pool[i], pool[(i + 1) % k]) for i in range(k)]
+                    defs = [{"id": i, "pos": [lit(a), lit(b)], "npos_req": 2, "kw": [], "prio": 0} for i, (a, b) in enumerate(pairs)]
+                    if fallback:
+                        defs.append({"id": 20, "pos": [[0, cls], [0, cls]], "npos_req": 2, "kw": [], "prio": 0})
+                    vals = pool[:k] + [other]
+                    calls = [{"vals": [enc_val(a), enc_val(b)], "kwvals": {}} for a in vals for b in vals]
+                    out.append({"spec": spec, "defs": defs, "utab": {}, "calls": calls})
+    return out
+
+
 def directed_nested_programs(rng):
     """value-dependent types nested under | and & so that the outer combination's direct members hold no value-dependent
     type, or so that arms of different bounds sit next to each other in either order: the shapes where 'is this annotation
